@@ -26,8 +26,8 @@ pub fn scale(tier: &str, quick: usize, thorough: usize) -> usize {
 // hungarian (C07)
 
 pub fn gen_hungarian(r: &mut Rng, tier: &str) -> Vec<Case> {
-    let n = scale(tier, 1200, 40000);
-    let maxn = scale(tier, 9, 20);
+    let n = scale(tier, 1200, 120000);
+    let maxn = scale(tier, 9, 24);
     (0..n)
         .map(|i| {
             let adm = i % 8 != 7;
@@ -83,13 +83,13 @@ pub fn run_hungarian(data: &Value) -> Vec<Line> {
 // node (C01, C02, C06, C08, C10): every node of the real search tree
 
 pub fn gen_node(r: &mut Rng, tier: &str, rooms: u8, nondyadic: bool, name: &'static str) -> Vec<Case> {
-    let n = scale(tier, 260, 4000);
+    let n = scale(tier, 260, 12000);
     (0..n)
         .map(|i| {
             let big = tier == "thorough" && i % 4 == 0;
             let p = InstParams {
-                max_courses: if big { 8 } else { 6 },
-                max_parts: if big { 20 } else { 10 },
+                max_courses: if big { 10 } else { 6 },
+                max_parts: if big { 28 } else { 10 },
                 rooms,
                 nondyadic,
                 allow_freeable: i % 3 != 0,
@@ -255,7 +255,7 @@ pub fn parse_babnode_debug(s: &str) -> Option<NodeData> {
 // solve: whole runs of caobab::solve under the scheduler shim
 
 pub fn gen_solve(r: &mut Rng, tier: &str, rooms: u8, name: &'static str) -> Vec<Case> {
-    let n = scale(tier, 160, 2500);
+    let n = scale(tier, 160, 6000);
     (0..n)
         .map(|i| {
             let small = i % 2 == 0; // brute-force sized
@@ -383,7 +383,7 @@ pub fn run_solve(data: &Value) -> Vec<Line> {
 // rooms-pairs (C17): a non-binding room list changes nothing
 
 pub fn gen_roompairs(r: &mut Rng, tier: &str) -> Vec<Case> {
-    let n = scale(tier, 150, 2500);
+    let n = scale(tier, 150, 8000);
     (0..n)
         .map(|i| {
             let p = InstParams { max_courses: 5, max_parts: 9, rooms: 0, nondyadic: i % 4 == 0, allow_freeable: i % 2 == 0 };
@@ -571,7 +571,7 @@ pub fn run_selections(data: &Value) -> Vec<Line> {
 // rooms (C18): the possible-rooms listing of io/rooms.rs on room-feasible assignments
 
 pub fn gen_rooms(r: &mut Rng, tier: &str) -> Vec<Case> {
-    let n = scale(tier, 500, 15000);
+    let n = scale(tier, 500, 50000);
     (0..n)
         .map(|i| {
             let nc = 1 + r.usize(7);
